@@ -387,7 +387,7 @@ theorem insertAt_ofTrie (e : Env) (t : Trie) (ht : t ≠ nil) :
     have h2 := insertLeaf_ofTrie e.ver pre pk lv key value d
     refine ⟨(insertLeaf e.ver pre pk (newValue e.ver lv) key value d).1, ?_⟩
     have hr := resolve_ofTrie e pre (leaf pk lv) (by simp)
-    simp only [insertAt, hr]
+    simp only [insertAt, insertNode, hr]
     simp only [ofTrie]
     have h21 := congrArg Prod.fst h2
     have h22 := congrArg Prod.snd h2
@@ -404,7 +404,7 @@ theorem insertAt_ofTrie (e : Env) (t : Trie) (ht : t ≠ nil) :
     have hr := resolve_ofTrie e pre (branch pk bv cs) (by simp)
     have hai : ∀ ch t', afterInspect (ofTrie e.ver (branch pk bv cs)) pre d ch (ofTrie e.ver t') =
         (ofTrie e.ver t', ch, d) := fun ch t' => afterInspect_new e.ver _ pre d ch t'
-    simp only [insertAt, hr]
+    simp only [insertAt, insertNode, hr]
     simp only [ofTrie] at hai ⊢
     simp only [tInsert]
     rw [lcpLen_eq]
@@ -518,7 +518,7 @@ theorem removeAt_ofTrie (e : Env) (t : Trie) (ht : t ≠ nil) (hcan : Canon t) :
     intro fuel pre key d hf
     obtain ⟨f, rfl⟩ : ∃ f, fuel = f + 1 := ⟨fuel - 1, by omega⟩
     have hr := resolve_ofTrie e pre (leaf pk lv) (by simp)
-    simp only [removeAt, hr]
+    simp only [removeAt, removeNode, removeKeep, removeFixed, hr]
     simp only [ofTrie, tRemove]
     by_cases hk : pk = key
     · subst hk
@@ -539,7 +539,7 @@ theorem removeAt_ofTrie (e : Env) (t : Trie) (ht : t ≠ nil) (hcan : Canon t) :
     have hr := resolve_ofTrie e pre (branch pk bv cs) (by simp)
     have hai : ∀ ch t', afterInspect (ofTrie e.ver (branch pk bv cs)) pre d ch (ofTrie e.ver t') =
         (ofTrie e.ver t', ch, d) := fun ch t' => afterInspect_new e.ver _ pre d ch t'
-    simp only [removeAt, hr]
+    simp only [removeAt, removeNode, removeKeep, removeFixed, hr]
     simp only [ofTrie] at hai ⊢
     simp only [tRemove]
     rw [lcpLen_eq]
